@@ -67,7 +67,8 @@ def cases(draw):
     before = draw(st.lists(st.sampled_from([1e31, -1., 0.75, 3.3]), max_size=2))
     return {'names': names, 'nfilt': nfilt, 'records': recs, 'criterion': crit, 'threshold': thr, 'input': form,
             'auto': draw(st.booleans()) if form == 'file' else False, 'earlier_thresholds': before,
-            'naming': draw(st.sampled_from(['both', 'both', 'good_explicit', 'bad_explicit']))}
+            'naming': draw(st.sampled_from(['both', 'both', 'good_explicit', 'bad_explicit'])),
+            'late_flags': draw(st.booleans())}
 
 
 def read_or_empty(path, what):
@@ -92,6 +93,17 @@ def run_case(case, ctx):
         meta = fg.Meta(os.path.join(d, 'models'), [1. + j for j in range(nfilt)], [3.] * nfilt,
                        {'wav': [0.1, 0.55, 10.], 'chi': [3., 1., 0.1]})
         infos = [fg.build_info(r, names, meta) for r in case['records']]
+        if case.get('late_flags') and case['input'] == 'list':
+            # the caller looked at n_data while a band still carried another flag and then set the final flag IN PLACE (a
+            # saturated band dropped, a detection turned into a limit): the count that matters is that of the flags as they
+            # are when filter_output runs
+            for i_ in infos:
+                so = i_.source
+                final = int(so.valid[0])
+                so.valid[0] = 0 if final in (1, 4) else 1
+                int(so.n_data)
+                so.valid[0] = final
+            labels.add('flags_finalised_in_place_after_n_data_was_read')
         snaps = [fg.snapshot(i) for i in infos]
         expect_good = []
         for r in case['records']:
